@@ -5,15 +5,6 @@ From GV Require Import Base.Prelude Base.PyStr Model.Bins Model.DB Model.Parser 
   Proofs.C02Proofs Proofs.C04Proofs.
 Open Scope Z_scope.
 
-Definition closed2 (st : ist) : Prop :=
-  forall x z, In (mkRel x z 2) (s_rels st) -> exists y, In (mkRel x y 1) (s_rels st) /\ In (mkRel y z 1) (s_rels st).
-Definition complete2 (st : ist) : Prop :=
-  forall x y z, In x (map r_id (s_rows st)) -> In (mkRel x y 1) (s_rels st) -> In (mkRel y z 1) (s_rels st) ->
-  In (mkRel x z 2) (s_rels st).
-Definition levels12 (st : ist) : Prop := forall x, In x (s_rels st) -> rel_level x = 1 \/ rel_level x = 2.
-Definition clean_state (st : ist) : Prop :=
-  (forall r, In r (s_rows st) -> id_clean (r_id r) = true) /\ (forall x, In x (s_rels st) -> id_clean (rel_child x) = true).
-
 Definition grows (st st' : ist) : Prop :=
   (forall i, In i (map r_id (s_rows st)) -> In i (map r_id (s_rows st'))) /\
   (forall x, In x (s_rels st) -> In x (s_rels st')) /\
@@ -173,25 +164,13 @@ Section Hist.
 
   (* a history: create_db, then update() calls, each with its own strategy; [clean_b] keeps the history inside the
      domain (ids and Parent values without TAB / CR / LF) *)
-  Definition clean_b (st : ist) : bool :=
-    forallb (fun r => id_clean (r_id r)) (s_rows st) && forallb (fun x => id_clean (rel_child x)) (s_rels st).
   Lemma clean_b_spec st : clean_b st = true -> clean_state st.
   Proof.
     unfold clean_b, clean_state. intros H. apply andb_prop in H as [A B]. rewrite forallb_forall in A, B. split; assumption.
   Qed.
 
-  Fixpoint imports (force : list field) (spec : idspec) (bs : list (strategy * list row)) (st : ist) : result ist :=
-    match bs with
-    | [] => Ok st
-    | (strat, fs) :: r =>
-        match import_gff call strat force spec fs st with
-        | Ok st1 => if clean_b st1 then imports force spec r st1 else Err EOther
-        | Err e => Err e
-        end
-    end.
-
   Theorem l_history_closed force spec : forall bs st st',
-    imports force spec bs st = Ok st' -> closed2 st -> complete2 st -> levels12 st ->
+    imports call force spec bs st = Ok st' -> closed2 st -> complete2 st -> levels12 st ->
     closed2 st' /\ complete2 st' /\ levels12 st'.
   Proof.
     induction bs as [|[strat fs] bs IH]; intros st st' H Hc Hk Hl; cbn [imports] in H.
@@ -203,7 +182,7 @@ Section Hist.
       + apply (IH st1 st'); assumption.
   Qed.
   Theorem l_history_from_empty force spec bs st' :
-    imports force spec bs empty_st = Ok st' -> closed2 st' /\ complete2 st' /\ levels12 st'.
+    imports call force spec bs empty_st = Ok st' -> closed2 st' /\ complete2 st' /\ levels12 st'.
   Proof.
     intros H. apply (l_history_closed force spec bs empty_st st' H).
     - intros x z F. destruct F.
